@@ -276,8 +276,10 @@ class P:
     # supertype expression: AND / ANDOR on one left-associative level (as in expparse.y), ONEOF( list ), parentheses
     @staticmethod
     def _chain(op, a, b):
-        """AND and ANDOR are associative: chains of one operator are flattened (exppp omits those parentheses)"""
-        xs = (a[1] if a[0] == op else [a]) + (b[1] if b[0] == op else [b])
+        """a left-nested chain of one operator is kept as the list of its operands ((x AND y) AND z = [x, y, z]: the tree the
+        parser builds from `x AND y AND z`); a RIGHT operand is never merged into the chain — `x AND (y AND z)` stays nested:
+        no associativity is assumed"""
+        xs = (a[1] if a[0] == op else [a]) + [b]
         return (op, xs)
 
     def super_expr(self):
